@@ -642,6 +642,11 @@ func readSQLiteDatabaseHeader(r io.Reader) (hdr sqliteDatabaseHeader, data []byt
 		hdr.PageSize = 65536
 	}
 
+	// The page size must be a power of two between 512 and 64K.
+	if hdr.PageSize < 512 || hdr.PageSize&(hdr.PageSize-1) != 0 {
+		return hdr, b, errInvalidDatabaseHeader
+	}
+
 	return hdr, b, nil
 }
 
